@@ -564,7 +564,7 @@ func (fl *Flow) summaryFacts(v ssa.Value, kind string) []Fact {
 			closureDepth--
 		}
 	}
-	if callee == nil || callee == fl.Fn || callee.Blocks == nil || callee.Synthetic != "" ||
+	if callee == nil || callee == fl.Fn || callee.Blocks == nil || (callee.Synthetic != "" && callee.Origin() == nil) ||
 		funcPkgPath(callee) != funcPkgPath(fl.Fn) || !inModule(funcPkgPath(callee)) {
 		return nil
 	}
